@@ -224,6 +224,21 @@ func cmdCheck(args []string) int {
 			extra["replay"] = rr
 			confirmed = rr.Confirmed
 		}
+		if !confirmed && v.Fn.Con != nil && v.Fn.Fn != nil {
+			// replay seeds from the contract file (used only to find a concrete failing input)
+			for wi, wm := range v.Fn.Con.Witnesses {
+				args, ok := w.witnessArgs(v.Fn, wm)
+				if !ok {
+					continue
+				}
+				rr := w.runReplay(v.Fn, args)
+				extra[fmt.Sprintf("replay_witness_%d", wi)] = rr
+				if rr.Confirmed {
+					confirmed = true
+					break
+				}
+			}
+		}
 		violate(o.Name, "obligation not discharged ("+v.Status+")", confirmed, extra)
 	}
 	for _, fr := range frs {
